@@ -95,6 +95,12 @@ Verdict(e) ==
                         THEN {"Scaling|vertex_current_flow_betweenness(2^24)"}
                    ELSE IF \E a \in 1..e.n : \E b \in 1..e.n : ~Close(e.big.ecfb[a][b], e.events[4].obs.ecfb[a][b], Tol4)
                         THEN {"Scaling|edge_current_flow_betweenness(2^24)"} ELSE {})
+             \cup (IF e.events[4].obs.exc # "" THEN {}
+                   ELSE IF e.giga.exc # "" THEN {"Applicable|update(2^30 r -> 2^30 r2):" \o e.giga.exc}
+                   ELSE IF \E a \in 1..e.n : \E b \in 1..e.n : ~CloseRel(e.giga.er[a][b], e.events[4].obs.er[a][b])
+                        THEN {"Scaling|effective_resistance(2^30 r -> 2^30 r2)"}
+                   ELSE IF \E a \in 1..e.n : ~Close(e.giga.vcfb[a], e.events[4].obs.vcfb[a], Tol4)
+                        THEN {"Scaling|vertex_current_flow_betweenness(2^30 r -> 2^30 r2)"} ELSE {})
              \cup (IF e.n >= 2 THEN ComplexFails(e.events[2].obs, e.complex[1], "@construct")
                                      \cup ComplexFails(e.events[4].obs, e.complex[2], "@update1") ELSE {})
   IN IF all = {} THEN <<"ACCEPT", "", "", "n" \o ToString(e.n)>>
